@@ -6,6 +6,7 @@ import DaskModel.Lemmas.ChunksPlanLemmas
 import DaskModel.Lemmas.ChunksPlanStages
 import DaskModel.Lemmas.ChunksLocate
 import DaskModel.Lemmas.ChunksAutoLemmas
+import DaskModel.Lemmas.ChunksMergeSafe
 /-!
 # C23 — chunk normalisation and rechunking are exact (theorems)
 
@@ -217,6 +218,22 @@ theorem find_split_valid {shape : List Nat} {old new r : List (List Nat)} {limit
 theorem find_merge_valid {shape : List Nat} {Lnum den : Nat} {old new c : List (List Nat)} {order : List Nat} {hit : Bool}
     (ho : AllStage shape old) (hn : AllStage shape new) (h : findMerge Lnum den old new order = .ok (c, hit)) :
     AllStage shape c := findMerge_valid ho hn h
+
+/-- **find_merge_never_raises**: on valid chunkings whose largest old block is within the limit (`plan_rechunk`
+    raises the limit to at least that), for every duplicate-free order of the candidates, `find_merge_rechunk` returns:
+    `assert largest_block_size == _largest_block_size(chunks)` and `assert largest_block_size <= block_size_limit`
+    hold, `divide_to_width` is never called with width 0 and `// largest_width` never divides by zero - and the
+    result's largest block is within the limit.  (Loop invariant `MInv`: the tracked `largest_block_size` is the real
+    one, it fits, and the dimensions not yet visited still carry the old chunks.) -/
+theorem find_merge_never_raises {shape : List Nat} {Lnum den : Nat} {old new : List (List Nat)} {order : List Nat}
+    (ho : AllStage shape old) (hn : AllStage shape new) (hden : 0 < den) (hfit : largestBlockSize old * den ≤ Lnum)
+    (hperm : isPermOf order (mergeCandidates old new) = true) :
+    ∃ c hit, findMerge Lnum den old new order = .ok (c, hit) ∧ AllStage shape c ∧ largestBlockSize c * den ≤ Lnum :=
+  findMerge_safe ho hn hden hfit hperm
+
+example : findMerge 12 1 [[1, 1, 1, 1, 1, 1], [6]] [[6], [1, 1, 1, 1, 1, 1]] [0] = .ok ([[2, 2, 2], [6]], true) := by rfl
+example : isPermOf [0] (mergeCandidates [[1, 1, 1, 1, 1, 1], [6]] [[6], [1, 1, 1, 1, 1, 1]]) = true ∧
+    largestBlockSize [[1, 1, 1, 1, 1, 1], [6]] * 1 ≤ 12 := by decide
 
 /-- **plan_rechunk_stages_valid**: every stage of every plan `plan_rechunk` returns is a valid chunking of the
     array's shape and the last stage is the target - for every threshold, byte limit, item size and candidate
